@@ -77,6 +77,12 @@ pub enum HeadState {
     Ready(u16),
     Failed(String),
 }
+pub enum ChunkState {
+    Pending,
+    Data(Vec<u8>),
+    End,
+    Failed(String),
+}
 pub enum BodyState {
     Pending,
     Complete(Vec<u8>),
@@ -222,6 +228,25 @@ pub fn poll_head(conn: usize) -> HeadState {
         Some(Ok(st)) => HeadState::Ready(*st),
         Some(Err(e)) => HeadState::Failed(e.clone()),
     })
+}
+
+pub fn poll_chunk(conn: usize, read: usize) -> ChunkState {
+    SIM.with(|s| {
+        let s = s.borrow();
+        let c = &s.conns[conn];
+        if c.body.len() > read {
+            return ChunkState::Data(c.body[read..].to_vec());
+        }
+        match &c.body_done {
+            None => ChunkState::Pending,
+            Some(Ok(())) => ChunkState::End,
+            Some(Err(e)) => ChunkState::Failed(e.clone()),
+        }
+    })
+}
+
+pub fn content_length(conn: usize) -> Option<u64> {
+    SIM.with(|s| s.borrow().bodies.get(conn).map(|b| b.len() as u64))
 }
 
 pub fn poll_body(conn: usize) -> BodyState {
